@@ -16,18 +16,21 @@ CLAIM = dict(
          "window on the line through the output point and is linear over functions of the other axes; passes along "
          "different axes commute; dataSmooth equals the composition of the smoothers of all energy axes in ANY order "
          "(explicitly for two axes), is linear, preserves constants and is the identity when all smoothers are void; "
-         "get_smoother returns void exactly for missing energy/smear, smear<=0 or <2 energies.  The pre-fix loop is "
-         "proved to smooth axis 0 only (finding F1) and to differ from the composition.",
+         "get_smoother returns void exactly for missing energy/smear, smear<=0 or <2 energies; after ANY history of "
+         "reads of the memoised dataSmooth and in-place add() calls dataSmooth is the smoothed current data (read, add(B), "
+         "read gives dataSmooth(A)+dataSmooth(B)).  The pre-fix loop is proved to smooth axis 0 only (finding F1) and the "
+         "pre-fix add() to keep a stale memoised value.",
     note="Trusted: Lean kernel + Mathlib; the harness; numpy tensordot/sum/transpose; cosh/exp values of the kernels "
          "(the model receives the code's smt array; the oracle recomputes the kernels from the formulas).",
 )
 TRUSTED = [
     "modelled: AbstractSmoother.__call__ (window bounds, kernel offsets, row normalisation, axis handling), "
-    "VoidSmoother.__call__, EnergyResult.dataSmooth (loop over axes), NE1 = int(maxdE*smear/dE), get_smoother dispatch",
+    "VoidSmoother.__call__, EnergyResult.dataSmooth (loop over axes; memoisation by cached_property and its invalidation by "
+    "the in-place EnergyResult.add as a state machine), NE1 = int(maxdE*smear/dE), get_smoother dispatch",
     "kernel values smt (1/cosh^2, exp) are a parameter of the model: the code's own array is passed to it; the oracle "
     "checks them against the closed formulas (k_B/e = 1.380649e-23/1.602176634e-19 eV/K)",
     "not modelled (oracle only): EnergyResult constructor/set_smoother, propagation of smoothers through + * transform, "
-    "StaticCalculator passing its smoother to the result, cached_property caching of dataSmooth",
+    "StaticCalculator passing its smoother to the result",
     "numpy transpose/tensordot/sum by their mathematical contract; floating point compared within derived rounding bounds",
 ]
 RULE = ("arrays of 1-4 dimensions with odd/even/size-1/size-2 axes, real and complex, smoothed along every axis by "
@@ -217,6 +220,37 @@ def corr(ctx):
             for Ap, gp in zip(parts(A), parts(got)):
                 lines.append(f"datasmooth {ints(shape)} {rats(Ap.reshape(-1))} {nE} {slots}")
                 checks.append(("EnergyResult.dataSmooth", gp.reshape(-1), exact, tol, case))
+
+    # ---- B'. histories of read / in-place add (cached_property) -------------------------------------------
+    for it in range(ctx.n(20, 150)):
+        nE = rng.choice([1, 2])
+        shape = [rng.choice([2, 3, 4]) for _ in range(nE)]
+        sms, descs = [], []
+        for a in range(nE):
+            s, d = make_smoother_safe(ctx, rng, shape[a], kinds=("T", "G", "V"), allow_big=False)
+            sms.append(s)
+            descs.append(d)
+        A = rand_data(rng, shape, False, integer=True)
+        Es = [d.get("E", dyadic_grid(rng, shape[a])) for a, d in enumerate(descs)]
+        case = dict(op="history", shape=shape, smoothers=descs, A=A)
+        with ctx.attempt("dataSmooth / add history", case):
+            res = EnergyResult(Es, A.copy(), smoothers=sms)
+            toks = []
+            for _ in range(rng.randint(1, 4)):
+                if rng.random() < 0.5:
+                    _ = res.dataSmooth
+                    toks.append("r")
+                else:
+                    B = rand_data(rng, shape, False, integer=True)
+                    res.add(EnergyResult(Es, B, smoothers=sms))
+                    toks.append("a:" + rats(B.reshape(-1)))
+            got = res.dataSmooth
+            ctx.count("corr.history")
+            width = sum(2 * int(s.NE1) + 3 for s in sms if s is not None and not isinstance(s, VoidSmoother))
+            tol = 16 * (width + 2) * eps * max(1.0, 64.0)
+            slots = " ".join(slot_tokens(s) for s in sms)
+            lines.append(f"hist {ints(shape)} {rats(A.reshape(-1))} {'/'.join(toks)} {nE} {slots}")
+            checks.append(("dataSmooth after a read/add history", got.reshape(-1), False, tol, case))
 
     out = ctx.lean(lines)
     for l, o, (what, exp, exact, tol, case) in zip(lines, out, checks):
@@ -485,37 +519,56 @@ def oracle(ctx, scale):
                 ctx.fail("dataSmooth of a linear combination of results is not the combination of their dataSmooth",
                          dict(case, B=B))
 
-    stale_cache_probe(ctx)
+    history_oracle(ctx, scale)
     calc_oracle(ctx, scale)
 
 
-KF_STALE = "C17-inplace-add-stale-dataSmooth"
-
-
-def stale_cache_probe(ctx):
-    """history: read dataSmooth, then EnergyResult.add(other) (in place), then read dataSmooth again.
-    dataSmooth is a cached_property, so the second read is the smoothed OLD data.  The library itself calls add()
-    only on fresh results (Morb.__call__), so this is reported as a finding for the maintainer of the check list:
-    it is raised through ctx.fail only when known_findings.json carries the key, otherwise it is a note."""
+def history_oracle(ctx, scale):
+    """histories of reads of dataSmooth (a cached_property) and in-place EnergyResult.add(): after every step
+    dataSmooth must be the smoothed CURRENT data (never a stale memoised value)"""
     from wannierberri.result import EnergyResult
-    from wannierberri.smoother import get_smoother
-    E = np.arange(9) / 8.0
-    try:
-        sm = get_smoother(E, 0.25, "Gaussian")
-        a = EnergyResult(E, np.arange(9.) ** 2, smoothers=[sm])
-        b = EnergyResult(E, np.ones(9), smoothers=[sm])
-        _ = a.dataSmooth
-        a.add(b)
-        stale = np.abs(a.dataSmooth - sm(a.data)).max() > 1e-9
-    except Exception:  # noqa  (construction problems are reported by the main oracle)
-        return
-    ctx.case(signature=("stale-cache",), nontrivial=True)
-    if stale:
-        msg = "dataSmooth read before an in-place EnergyResult.add() is not refreshed afterwards (cached_property)"
-        if KF_STALE in ctx.known:
-            ctx.fail(msg, dict(E=E, data="arange(9)**2 then add(ones)"), kf=KF_STALE)
-        else:
-            ctx.note("observation (not raised): " + msg)
+    rng = ctx.rng
+    for it in range(ctx.n(40, 400) * scale):
+        nE = rng.choice([1, 1, 2, 2, 3])
+        rank = rng.choice([0, 1, 2])
+        shape = [rng.choice([2, 3, 4, 5]) for _ in range(nE)] + [3] * rank
+        sms, descs = [], []
+        for a in range(nE):
+            s, d = make_smoother_safe(ctx, rng, shape[a], kinds=("FD", "G", "T", "V", "G"), allow_big=False)
+            sms.append(s)
+            descs.append(d)
+        cplx = rng.random() < 0.3
+        A = rand_data(rng, shape, cplx)
+        Es = [d.get("E", dyadic_grid(rng, shape[a])) for a, d in enumerate(descs)]
+        ops = [rng.choice(["read", "add", "add"]) for _ in range(rng.randint(2, 6))]
+        if "read" not in ops[:-1]:
+            ops.insert(0, "read")
+        ops.append("read")
+        case = dict(shape=shape, nE=nE, smoothers=descs, history=ops, A=A)
+        ctx.case(signature=("hist", tuple(shape), tuple(ops), A.tobytes()), nontrivial=True)
+        ctx.count("oracle.history(read/add)")
+        with ctx.attempt("dataSmooth / add history", case):
+            res = EnergyResult(Es, A.copy(), smoothers=list(sms), rank=rank)
+            Ms = [ref_matrix(s, d, shape[a]) for a, (s, d) in enumerate(zip(sms, descs))]
+            cur = A.copy()
+            width = sum(2 * getattr(s, "NE1", 0) + 1 for s in sms if s is not None)
+            for step, op in enumerate(ops):
+                if op == "add":
+                    B = rand_data(rng, shape, cplx)
+                    res.add(EnergyResult(Es, B, smoothers=list(sms), rank=rank))
+                    cur = cur + B
+                    if not np.array_equal(res.data, cur):
+                        ctx.fail("EnergyResult.add is not the element-wise in-place sum", dict(case, step=step))
+                        break
+                else:
+                    ref = cur
+                    for a in range(nE):
+                        ref = ref_apply(Ms[a], ref, a)
+                    ok, tol = close(res.dataSmooth, ref, np.abs(cur).max(), width)
+                    if not ok:
+                        ctx.fail(f"step {step} of the history {ops}: dataSmooth is not the smoothed current data "
+                                 f"(max diff {np.abs(res.dataSmooth - ref).max():.3e}, tol {tol:.1e})", dict(case, step=step))
+                        break
 
 
 def calc_oracle(ctx, scale):
